@@ -97,4 +97,6 @@ def panel (f : Feat) : Panel :=
     prog := prog f,
     ctrl := .ssd (Ssd.por false 22 296) }
 
+attribute [driver_simp] W Mode.byte turnOnDisplay init updateAchromatic updateChromatic updateFrame displayFrame updatePartialFrame clearFrame prog
+
 end EpdVerif.Drivers.Epd2in9b_v4
